@@ -108,6 +108,9 @@ type Sched struct {
 	Deadlocked bool
 	// ArmOnly: no scheduling at all, only the lock probes are armed (Prop.ArmLockProbes)
 	ArmOnly bool
+	// ArmBlockedAt: first lock site at which the armed driver would have blocked (also when the panic raised there
+	// was swallowed, e.g. by fmt while formatting a value whose String method takes the lock)
+	ArmBlockedAt string
 	// NoDeadlockFail: the property's own oracle reports lock deadlocks (with a better message)
 	NoDeadlockFail bool
 	fail           *Violation
@@ -168,6 +171,13 @@ var (
 func init() {
 	verifsim.Hook = globalHook
 	verifsim.SelectHook = globalSelectHook
+	verifsim.OnWouldBlock = func(site string) {
+		// only the armed single-driver mode: there a busy lock can only be one the driver holds itself (with a real
+		// scheduler the root's probes hit locks of parked tasks all the time: RootCall handles those)
+		if s := curSched.Load(); s != nil && s.ArmOnly && s.ArmBlockedAt == "" {
+			s.ArmBlockedAt = site
+		}
+	}
 	verifsim.SelectHitHook = globalSelectHit
 	verifsim.RootProbe = func() int {
 		s := curSched.Load()
